@@ -1,3 +1,6 @@
+#include <unistd.h>
+#include <sys/wait.h>
+#include <cstdlib>
 #include "harness.hpp"
 namespace mx {
 
@@ -38,7 +41,7 @@ std::string mat_key(const refed::Mat& H) {
     return k;
 }
 
-BFSResult bfs_models(const Shape& sh, const std::vector<Gen>& A, int maxdepth, size_t cap ) {
+static BFSResult bfs_models_inproc(const Shape& sh, const std::vector<Gen>& A, int maxdepth, size_t cap ) {
     BFSResult R; R.transitions = R.duplicates = R.rejected = 0;
     std::unordered_set<std::string> seen; std::vector<MState> frontier;
     auto key_of = [&](const std::vector<int>& h, std::string& key) -> bool {
@@ -60,6 +63,33 @@ BFSResult bfs_models(const Shape& sh, const std::vector<Gen>& A, int maxdepth, s
         }
         R.per_level.push_back(next.size()); frontier.swap(next);
     }
+    return R;
+}
+
+// The enumeration builds one real Lattice per transition, and the library never frees a lattice's terms (LatticePresets passes a
+// heap-allocated temporary to addTerm, which copies it) -- half a million transitions under ASan cost gigabytes.  So the enumeration
+// runs in a forked child that streams the resulting histories back through a pipe and exits; the parent keeps only the state list.
+// If the child does not finish cleanly the enumeration is repeated in-process, so that a crash inside the library is observed as before.
+BFSResult bfs_models(const Shape& sh, const std::vector<Gen>& A, int maxdepth, size_t cap ) {
+    if (maxdepth <= 1 || getenv("VERIF_NO_FORK_BFS")) return bfs_models_inproc(sh, A, maxdepth, cap);
+    int fd[2]; if (pipe(fd) != 0) return bfs_models_inproc(sh, A, maxdepth, cap);
+    fflush(stdout); fflush(stderr);
+    pid_t pid = fork();
+    if (pid < 0) { close(fd[0]); close(fd[1]); return bfs_models_inproc(sh, A, maxdepth, cap); }
+    if (pid == 0) {
+        close(fd[0]); BFSResult R = bfs_models_inproc(sh, A, maxdepth, cap);
+        std::vector<long> buf; buf.push_back(R.transitions); buf.push_back(R.duplicates); buf.push_back(R.rejected); buf.push_back((long)R.per_level.size()); for (long v : R.per_level) buf.push_back(v);
+        buf.push_back((long)R.states.size()); for (auto& st : R.states) { buf.push_back(st.depth); buf.push_back((long)st.hist.size()); for (int g : st.hist) buf.push_back(g); }
+        buf.push_back(0x600DC0DEL);
+        const char* p = (const char*)buf.data(); size_t n = buf.size() * sizeof(long); while (n) { ssize_t w = write(fd[1], p, n); if (w <= 0) _exit(3); p += w; n -= w; }
+        close(fd[1]); _exit(0);
+    }
+    close(fd[1]); std::vector<char> raw; char tmp[65536]; ssize_t r; while ((r = read(fd[0], tmp, sizeof tmp)) > 0) raw.insert(raw.end(), tmp, tmp + r); close(fd[0]);
+    int status = 0; waitpid(pid, &status, 0);
+    size_t nl = raw.size() / sizeof(long); const long* q = (const long*)raw.data(); bool ok = WIFEXITED(status) && WEXITSTATUS(status) == 0 && nl >= 6 && q[nl - 1] == 0x600DC0DEL;
+    if (!ok) return bfs_models_inproc(sh, A, maxdepth, cap);
+    BFSResult R; size_t i = 0; R.transitions = q[i++]; R.duplicates = q[i++]; R.rejected = q[i++]; long npl = q[i++]; for (long k = 0; k < npl; ++k) R.per_level.push_back(q[i++]);
+    long ns = q[i++]; R.states.reserve(ns); for (long k = 0; k < ns; ++k) { MState st; st.depth = (int)q[i++]; long hl = q[i++]; for (long j = 0; j < hl; ++j) st.hist.push_back((int)q[i++]); R.states.push_back(st); }
     return R;
 }
 
